@@ -78,3 +78,57 @@ _core_assumptions = [
 for p in ("C01", "C02", "C03", "C04", "C05"):
     PROPERTY_META.setdefault(p, {"assumptions": [], "trusted_base": []})
     PROPERTY_META[p]["assumptions"] += _core_assumptions
+
+# --------------------------------------------------------------------------
+# C12: xcm_addr.c + xcm_dns.c over the LIBC-STR models
+# --------------------------------------------------------------------------
+HP = ["tcp", "tls", "utls", "sctp", "btcp", "btls"]
+US = "--unwindset"
+for pr in HP:
+    n = 7 if pr == "tcp" else 5
+    ob("addr.parse.%s.n%d" % (pr, n), "addr/addr.c", ["-DOP_PARSE_HP", '-DPROTO="%s"' % pr, "-DPFUN=xcm_addr_parse_" + pr, "-DNTAIL=%d" % n], ["C12"],
+       unwind=18, unwindset=["strcmp.0:34", "strncpy.0:42"], quick_only=True,
+       desc="xcm_addr_parse_%s on '%s:' followed by %d arbitrary bytes: accept <=> documented syntax (reference parser), host/port values" % (pr, pr, n))
+    ob("addr.parse.%s.n10" % pr, "addr/addr.c", ["-DOP_PARSE_HP", '-DPROTO="%s"' % pr, "-DPFUN=xcm_addr_parse_" + pr, "-DNTAIL=10"], ["C12"],
+       tier="thorough", unwind=18, unwindset=["strcmp.0:34", "strncpy.0:42"], timeout=2400,
+       desc="xcm_addr_parse_%s on '%s:' followed by 10 arbitrary bytes" % (pr, pr))
+    ob("addr.valid.%s.n4" % pr, "addr/addr.c", ["-DOP_VALID_HP", '-DPROTO="%s"' % pr, "-DPFUN=xcm_addr_parse_" + pr, "-DNTAIL=4"], ["C12"],
+       tier="thorough", unwind=18, unwindset=["strcmp.0:34", "strncpy.0:42"], timeout=2400,
+       desc="xcm_addr_is_valid agrees with xcm_addr_parse_%s on '%s:' + 4 arbitrary bytes" % (pr, pr))
+for pr in ("tcp", "btls"):
+    for kind, kn in ((0, "name"), (1, "ipv4"), (2, "ipv6")):
+        if pr == "btls" and kind != 2:
+            continue
+        ob("addr.make.%s.%s" % (pr, kn), "addr/addr.c", ["-DOP_MAKE_HP", "-DKIND=%d" % kind, "-DIP6_TEXT_MAX=8", '-DPROTO="%s"' % pr, "-DPFUN=xcm_addr_parse_" + pr, "-DMFUN=xcm_addr_make_" + pr], ["C12"],
+           unwind=27, unwindset=["strcmp.0:34", "strncpy.0:42"],
+           desc="xcm_addr_make_%s, %s host, all 65536 ports, every capacity 0..len+2: 0 <=> complete address fits, content exact, nothing written past capacity" % (pr, kn))
+        ob("addr.roundtrip.%s.%s" % (pr, kn), "addr/addr.c", ["-DOP_MAKE_HP", "-DROUNDTRIP", "-DKIND=%d" % kind, "-DIP6_TEXT_MAX=8", '-DPROTO="%s"' % pr, "-DPFUN=xcm_addr_parse_" + pr, "-DMFUN=xcm_addr_make_" + pr], ["C12"],
+           tier="thorough", unwind=27, unwindset=["strcmp.0:34", "strncpy.0:42"], timeout=3000,
+           desc="parse(make(x)) = x for %s, %s host" % (pr, kn))
+for pr in ("ux", "uxf"):
+    ob("addr.parse.%s.n8" % pr, "addr/addr.c", ["-DOP_PARSE_UX", '-DPROTO="%s"' % pr, "-DPFUN=xcm_addr_parse_" + pr, "-DNTAIL=8"], ["C12"],
+       unwind=18, unwindset=["strcmp.0:34"], desc="xcm_addr_parse_%s on '%s:' + 8 arbitrary bytes, every capacity" % (pr, pr))
+    ob("addr.make.%s" % pr, "addr/addr.c", ["-DOP_MAKE_UX", '-DPROTO="%s"' % pr, "-DPFUN=xcm_addr_parse_" + pr, "-DMFUN=xcm_addr_make_" + pr], ["C12"],
+       unwind=18, unwindset=["strcmp.0:34"], desc="xcm_addr_make_%s, names <= 6 bytes, every capacity, round trip" % pr)
+    ob("addr.valid.%s.n8" % pr, "addr/addr.c", ["-DOP_PARSE_UX", "-DWITH_VALID", '-DPROTO="%s"' % pr, "-DPFUN=xcm_addr_parse_" + pr, "-DNTAIL=8"], ["C12"],
+       tier="thorough", unwind=18, unwindset=["strcmp.0:34", "strncpy.0:42"], timeout=2400, desc="xcm_addr_is_valid agrees with the documented %s syntax" % pr)
+ob("addr.parse.ux.n110", "addr/addr.c", ["-DOP_PARSE_UX", '-DPROTO="ux"', "-DPFUN=xcm_addr_parse_ux", "-DNTAIL=110"], ["C12"],
+   unwind=116, desc="xcm_addr_parse_ux on names up to 110 bytes (limit 107/108), every capacity 0..112")
+ob("addr.make.uxf.n110", "addr/addr.c", ["-DOP_MAKE_UX", "-DNAMEMAX=110", '-DPROTO="uxf"', "-DPFUN=xcm_addr_parse_uxf", "-DMFUN=xcm_addr_make_uxf"], ["C12"],
+   unwind=124, desc="xcm_addr_make_uxf with names up to 110 bytes, every capacity, round trip")
+ob("addr.proto.n8", "addr/addr.c", ["-DOP_PROTO", "-DNTAIL=8"], ["C12"], unwind=18, desc="xcm_addr_parse_proto on 8 arbitrary bytes, every capacity 0..10")
+PROPERTY_META["C12"] = {
+    "jobs_thorough": 5,
+    "prechecks": [{"name": "libc_str models vs glibc (strtol, inet_pton/ntop, snprintf, isspace) and vs the repository's xcm_dns_is_valid_name",
+                   "cmds": ["gcc -O1 -w -D_GNU_SOURCE -DUT_STD_ASSERT -I{VERIF}/harness/common -I{REPO}/include -I{REPO}/libxcm/tp/dns -I{REPO}/common -I{REPO}/libxcm/core -I{REPO}/libxcm/tp/common -o {BUILD}/validate_libc {VERIF}/tools/validate_libc_models.c {REPO}/libxcm/tp/dns/xcm_dns.c {REPO}/common/util.c -lpthread",
+                            "{BUILD}/validate_libc 30000"]}],
+    "assumptions": [
+        "LIBC-STR models of strtol/inet_pton(AF_INET)/inet_ntop(AF_INET)/snprintf(%s %c %d)/isspace and an automaton for the DNS-name regular expression (validated differentially against glibc on every run: all strings up to length 5 over a structural alphabet + random longer ones)",
+        "IPv6 text form is opaque: inet_ntop yields an arbitrary token of 2..8 (quick) characters, inet_pton is an arbitrary but deterministic function that inverts it",
+        "parser input = transport prefix + N arbitrary bytes (N in the obligation name); UX/UXF names up to 110 bytes",
+        "ntohs/htons given an int-sized result (CBMC does not apply default argument promotions to uint16_t varargs)",
+    ],
+    "trusted_base": ["harness/common/libc_str.h"],
+    "bounds": "tail length N per obligation; DNS names <= 5 chars in make; capacities 0..len+2",
+    "outside": "host strings of 13..512 bytes with arbitrary structure; real IPv6 text syntax (inside libc)",
+}
